@@ -7,6 +7,9 @@ ids = [json.loads(l)["id"] for l in open(os.path.join(ROOT, "properties.jsonl"))
 TRUST = "trusted base: Linux AF_UNIX+epoll standing in for TCP (address translation, EPOLLHUP mapped to TCP semantics), the libc interposition layer, the scripted peers and reference oracles in /verif/sim; release semantics (debug assertions off); x86-64 only. A clean batch is evidence over the sampled schedules, not proof."
 
 CHECKS = {
+ "C10": dict(engine="netsim", design="5/C10", category="exploration",
+   text="Two plan families. codec: listener sets 0..200 of every textual address shape sent with the real send_listeners and read back with the real receive_listeners over a real unix socket pair, each returned fd checked against its address, with an fd-table audit. handover: two real workers (two threads under a baton scheduler that decides who runs) and a scripted master replaying ReturnListenSockets -> receive -> boot successor -> SoftStop/activate at seeded moments relative to client traffic; oracles: every listener returns bound to its address, every connect succeeds and every request in flight completes (C01 oracle), the old worker accepts nothing after acknowledging the stop, acknowledges exactly once and exits.",
+   technique="deterministic simulation of two real worker event loops + scripted master with seeded hand-over timing; codec round-trip over generated listener sets"),
  "C16": dict(engine="netsim", design="5/C16", category="exploration",
    text="Seeded deterministic simulation of the real worker under mixes of session outcomes and connection storms with max_connections 2..64: the hooks count the client sockets sozu is serving at every step (never above max_connections); after all peers left and virtual time passed every timeout, no client/backend socket remains open, QueryMetrics gauges equal their pre-traffic baseline and a fresh probe is served.",
    technique="deterministic simulation with fault injection; step-wise admission invariant from the syscall seam; baseline-vs-quiescence footprint comparison"),
